@@ -4,6 +4,7 @@ package main
 // compressor and the decompressor, provenance of decode-time choices, page extents.
 
 import (
+	"reflect"
 	"fmt"
 	"go/constant"
 	"go/token"
@@ -406,13 +407,14 @@ func sliceLenExpr(v ssa.Value) string {
 
 func checkC04(c *Ctx) {
 	r := c.R
-	r.Explanation = "Necessary structural preconditions of C04 only (thin claim): decode-time choices come from the file, never from writer configuration (LA-codec provenance of the codec switch; LA-cfg: no reader-reachable function loads a writer-configuration field); writer and reader pair inverse codec operations; both run kinds and multi-byte run headers are handled by the level decoder (LA-runkind, LA-leb128); a page body's extent is the header's compressed size (LA-extent); level streams are read in the order and with the widths they are written (LA-order); reading is independent of read fragmentation (SR, as C08). NOT decided: correctness of level/run/PLAIN decoding, page concatenation and trimming for all legal encodings — that needs an independent writer."
+	r.Explanation = "Necessary structural preconditions of C04 only (thin claim): decode-time choices come from the file, never from writer configuration (LA-codec provenance of the codec switch; LA-cfg: no reader-reachable function loads a writer-configuration field); writer and reader pair inverse codec operations; both run kinds and multi-byte run headers are handled by the level decoder (LA-runkind, LA-leb128); a page body's extent is the header's compressed size (LA-extent); level streams are read in the order and with the widths they are written (LA-order); reading is independent of read fragmentation (SR, as C08); the decode path uses no thrift field a conformant writer may omit — statistics, crc, optional offsets — other than the v1 data-page discriminator (LA-optmeta). NOT decided: correctness of level/run/PLAIN decoding, page concatenation and trimming for all legal encodings — that needs an independent writer."
 	laCodec(c, "LA-codec")
 	laCfg(c, "LA-cfg")
 	laExtent(c, "LA-extent")
 	laRunKind(c)
 	laLEB(c)
 	laOrder(c, "LA-order")
+	laOptMeta(c, "LA-optmeta")
 	_, t, _ := srcAnalysis(c)
 	runSR(c.U, r, t, func(f *ssa.Function) bool { return !c.U.isCtl(f) })
 	r.assume("value-level decoding correctness (levels, runs, PLAIN values, page chains) is NOT decided by this check")
@@ -581,4 +583,118 @@ func appendedValues(call *ssa.Call) []ssa.Value {
 		}
 	}
 	return []ssa.Value{call.Call.Args[1]}
+}
+
+// laOptMeta (C04): decoding must not depend on metadata a conformant writer may leave out. Every use — on the reader's
+// decode path — of a field of a thrift struct of package schema that is not marked `required` (statistics, crc, key/value
+// metadata, encoding stats, optional offsets, …), or of its Get/IsSet accessor, is reported; the one accepted use is the
+// union discriminator PageHeader.DataPageHeader, whose presence is what identifies a v1 data page (gated under C18).
+func laOptMeta(c *Ctx, rule string) {
+	r, u := c.R, c.U
+	schPkg := u.Pkgs[rtPath].Imports[schPath]
+	if schPkg == nil {
+		r.failf("%s: schema package not loaded", rule)
+		return
+	}
+	type optInfo struct{ owner, name string }
+	opt := map[*types.Var]optInfo{}
+	optByName := map[string]map[string]bool{} // owner type -> optional field names
+	scope := schPkg.Types.Scope()
+	for _, n := range scope.Names() {
+		tn, ok := scope.Lookup(n).(*types.TypeName)
+		if !ok {
+			continue
+		}
+		st, ok := tn.Type().Underlying().(*types.Struct)
+		if !ok {
+			continue
+		}
+		for i := 0; i < st.NumFields(); i++ {
+			tag := reflect.StructTag(st.Tag(i)).Get("thrift")
+			if tag == "" || strings.HasSuffix(tag, ",required") {
+				continue
+			}
+			opt[st.Field(i)] = optInfo{n, st.Field(i).Name()}
+			if optByName[n] == nil {
+				optByName[n] = map[string]bool{}
+			}
+			optByName[n][st.Field(i).Name()] = true
+		}
+	}
+	r.count(rule+"/optional-fields", len(opt))
+	accepted := map[string]string{
+		"PageHeader.DataPageHeader": "union discriminator: its presence identifies a v1 data page (tested under C18); every v1 data page carries it",
+		"ColumnChunk.MetaData":      "the chunk's metadata (codec, num_values, sizes) has no other home: a file in the supported subset keeps its chunks in the same file and records them here",
+	}
+	roots := sourceRoots(c)
+	reach := u.reach(append([]*ssa.Function{}, roots.reader...))
+	var fns []*ssa.Function
+	for f := range reach {
+		if u.InUniverse(f) && f.Synthetic == "" {
+			fns = append(fns, f)
+		}
+	}
+	sort.Slice(fns, func(i, j int) bool { return fns[i].String() < fns[j].String() })
+	uses := map[string]string{} // owner.field -> first position
+	note := func(owner, name, pos string, f *ssa.Function) {
+		k := owner + "." + name + " in " + u.FnName(f)
+		if _, dup := uses[k]; !dup {
+			uses[k] = pos
+		}
+	}
+	for _, f := range fns {
+		for _, b := range f.Blocks {
+			for _, ins := range b.Instrs {
+				switch x := ins.(type) {
+				case *ssa.UnOp:
+					if x.Op == token.MUL {
+						if oi, ok := opt[fieldOf(x.X)]; ok {
+							note(oi.owner, oi.name, u.Pos(x.Pos()), f)
+						}
+					}
+				case *ssa.Field:
+					if oi, ok := opt[fieldOf(x)]; ok {
+						note(oi.owner, oi.name, u.Pos(x.Pos()), f)
+					}
+				case ssa.CallInstruction:
+					sc := x.Common().StaticCallee()
+					if sc == nil || sc.Pkg == nil || sc.Pkg.Pkg.Path() != schPath || sc.Signature.Recv() == nil {
+						continue
+					}
+					owner := ""
+					rt := sc.Signature.Recv().Type()
+					if p, ok := rt.(*types.Pointer); ok {
+						rt = p.Elem()
+					}
+					if nm, ok := rt.(*types.Named); ok {
+						owner = nm.Obj().Name()
+					}
+					for _, pre := range []string{"Get", "IsSet"} {
+						if fld := strings.TrimPrefix(sc.Name(), pre); fld != sc.Name() && optByName[owner][fld] {
+							note(owner, fld, u.Pos(x.Pos()), f)
+						}
+					}
+				}
+			}
+		}
+	}
+	var keys []string
+	for k := range uses {
+		keys = append(keys, k)
+	}
+	sort.Strings(keys)
+	nAcc := 0
+	for _, k := range keys {
+		of := k[:strings.Index(k, " in ")]
+		if why, ok := accepted[of]; ok {
+			nAcc++
+			r.ok(rule, k, uses[k], "accepted: "+why)
+			continue
+		}
+		r.bad(rule, k, uses[k], "the decode path uses "+of+", which a conformant writer may omit (the thrift field is not `required`; an unset value reads as nil/0): what the reader returns would depend on whether the file's writer recorded optional metadata")
+	}
+	r.count(rule+"/accepted-uses", nAcc)
+	r.ok(rule, "reader decode path", "", fmt.Sprintf("%d functions reachable from the generated reader's API scanned for loads of, and Get/IsSet accessors on, the %d non-required thrift fields of package schema", len(fns), len(opt)))
+	r.floor(rule+"/optional-fields", 20, "package schema declares dozens of optional fields (statistics, crc, key_value_metadata, …)")
+	r.floor(rule+"/accepted-uses", 2, "PageHeader.DataPageHeader (page gate), ColumnChunk.MetaData (Pages / readRowGroup)")
 }
